@@ -215,9 +215,9 @@ T0 = ("call", "run_command", {"name": "t0", "run": "true"})
 E1 = ("call", "run_command", {"name": "e1", "run": "true"})
 VALUES = ["s", "", True, False, 0, 3, 1.5, None, [], ["a"], [1], {}, {"k": 1}, Other("()"), Other("set()"), [":t0"], [None],
           [Other("1j")], {"k": Other("__import__('fractions').Fraction(1, 2)")}, [1, Other("__import__('decimal').Decimal('1.5')")], {"z": Other("1j")}, Other("1j")]
-NAMES_BAD = ["", " ", "a b", "foo\n", "a.b", "a/b", "a:b", ":a", "é", "a\n\n", "\nfoo", "a\tb", "-", "_", "0", "A-z_0"]
+NAMES_BAD = ["", " ", "a b", "foo\n", "a.b", "a/b", "a:b", ":a", "é", "a\n\n", "\nfoo", "a\tb", "-", "_", "0", "A-z_0", "run-{threads}", "{", "{0}"]
 DEPS_POOL = [":t0", "//d:t0", "//other:x", "//other:e1", ":e1", ":t0\n", "other:x", "t0", "", ":", "//:", "//other:", ":a b", "//other//x:y",
-             "//other/:x", "/other:x", "//other:x:y", " :t0", ":zz", "//nodir:x", "//d/:t0"]
+             "//other/:x", "/other:x", "//other:x:y", " :t0", ":zz", "//nodir:x", "//d/:t0", "//:base-{n}", ":{0}", ":}"]
 
 
 def one(ctor, kw, tag, target=None, extra=None, name_key=None):
@@ -542,6 +542,9 @@ def python_error_cases():
         ("undefined_name\n", "name-error"),
         ("raise RuntimeError('x')\n", "raise"),
         ("raise KeyError('k')\n", "raise"),
+        ("raise ValueError('{k}: {0} }')\n", "raise-braces"),
+        ("raise ValueError(str({'a': 1}))\n", "raise-braces"),
+        ("assert False, '{x}'\n", "assert-braces"),
         ("assert False\n", "assert"),
         ("import nosuchmodule_xyz\n", "import-error"),
         ("run_command(\n", "syntax-error"),
